@@ -19,6 +19,7 @@ EXPLANATION = (
     ' Added after seed round 3: (7) AttrSpec.colors recognises each depth by exactly the flag pair the setters store for it (masks folded to integers; only 88 is told by its mode flag); (8) the hN branch of the 256/88 parsers accepts exactly 0..colours-1 (bound folded, compared as an interval).'
     " Round 4: (9) the 256-colour gray ramp and cube step tables equal xterm's closed forms (8 + 10*i; 0, 95 + 40*(i-1))."
     ' Round 6: (13) SIB: every depth marker AttrSpec.__init__ puts into the packed value is reported by the colors property or cleared again in __init__ (fix 94a2129: a 2**24 spec without a 24-bit colour equals its rebuild).'
+    ' Round 7: (11) the '#rrggbb' fold of the 88-colour parser keeps positions 0, 1, 3, 5 (the high digit of each channel), evaluated from its constant slices; (14) ACCUM: the flags collected over the parts of a foreground description are only OR-ed into inside the loop.'
 )
 NOT_DECIDED = "Nearest-entry correctness, idempotence of parse(describe(x)), RGB values - value-level facts; range-check raises in the describers depend on the stored value's range (covered only through the twin comparison)."
 ASSUMPTIONS = ["Range-check `raise ValueError(num)` in _color_desc_* is assumed unreachable for values the parsers produce (table entries with reason)."]
@@ -339,6 +340,65 @@ def rule_strict_numbers(ctx: Ctx) -> RuleResult:
         rr.inst("88: all six digits validated before the fold", True, {"validated_first": ok})
         if not ok:
             rr.add(finding("TAINT", p88, n, f"the seven-character description is folded to `{prm}[0:2] + {prm}[3] + {prm}[5]` before its six digits went through _int_digits({prm}[1:], 16): the three characters that are dropped are never looked at, so '#1x3y5z' is accepted as '#135' at depth 88 (the 256- and true-colour parsers reject it)", construct="seven-character fold before validation"))
+        # '#rrggbb' -> '#rgb' keeps the marker and the HIGH digit of each channel: characters 0, 1, 3, 5.  The fold is
+        # a concatenation of constant subscripts / slices of the description; evaluated on the positions 0..6 it has
+        # to give exactly [0, 1, 3, 5] (the low digits 2, 4, 6 give #f00000 -> #000 and #0f0000 -> #f00)
+        if fold_i is not None:
+            fold = n.body[fold_i].value
+            parts, work = [], [fold]
+            while work:
+                x = work.pop(0)
+                if isinstance(x, ast.BinOp) and isinstance(x.op, ast.Add):
+                    work = [x.left, x.right, *work]
+                else:
+                    parts.append(x)
+            idx, ok_fold = [], True
+            for x in parts:
+                if isinstance(x, ast.Subscript) and isinstance(x.value, ast.Name) and x.value.id == prm:
+                    sl = x.slice
+                    seq = list(range(7))
+                    if isinstance(sl, ast.Constant) and isinstance(sl.value, int):
+                        idx.append(seq[sl.value])
+                    elif isinstance(sl, ast.Slice) and all(b is None or (isinstance(b, ast.Constant) and isinstance(b.value, int)) or (isinstance(b, ast.UnaryOp) and isinstance(b.operand, ast.Constant)) for b in (sl.lower, sl.upper, sl.step)):
+                        def val(b):
+                            if b is None:
+                                return None
+                            return b.value if isinstance(b, ast.Constant) else -b.operand.value
+                        idx += seq[slice(val(sl.lower), val(sl.upper), val(sl.step))]
+                    else:
+                        ok_fold = False
+                else:
+                    ok_fold = False
+            rr.inst("88: the fold keeps the high digit of each channel", True, {"fold": norm(fold, 60), "positions_kept": idx})
+            if not ok_fold or idx != [0, 1, 3, 5]:
+                rr.add(finding("TAINT", p88, n.body[fold_i], f"`{norm(n.body[fold_i], 60)}` folds '#rrggbb' to the characters at positions {idx if ok_fold else '?'} instead of 0, 1, 3, 5 (the marker and the high digit of each channel): the colour handed to the 88-colour lookup is built from the low digits - #f00000 becomes #000, #0f0000 becomes #f00", construct="seven-character fold keeps other positions than 0, 1, 3, 5"))
+    return rr
+
+
+def rule_flags_accumulate(ctx: Ctx) -> RuleResult:
+    """AttrSpec.__set_foreground() walks the comma-separated parts of the description and collects the settings
+    (bold, underline ...) and the colour kind in one local (`flags`), which also feeds the duplicate-setting test.
+    Every update inside the loop ORs into it; a plain assignment in one branch (`flags = _FG_TRUE_COLOR`) throws away
+    the settings of the parts before it: 'bold,underline,#123456' loses bold and underline at 2**24 colours and
+    'bold,#123456,bold' is no longer rejected."""
+    p = ctx.p
+    rr = RuleResult("ACCUM", "C18.14", "inside the part loop of AttrSpec's foreground parser the collected flags are only ever OR-ed into, never reassigned", floor=4)
+    cls = p.cls(f"{COMMON}.AttrSpec")
+    fi = next((m for n_, m in cls.methods.items() if n_.endswith("__set_foreground")), None)
+    if fi is None:
+        raise AnalysisError("AttrSpec.__set_foreground not found")
+    loops = [n for n in fi.own_nodes() if isinstance(n, ast.For)]
+    if not loops:
+        raise AnalysisError("AttrSpec.__set_foreground: the loop over the parts was not found")
+    lp = loops[0]
+    ors = {n.target.id for n in ast.walk(lp) if isinstance(n, ast.AugAssign) and isinstance(n.op, ast.BitOr) and isinstance(n.target, ast.Name)}
+    for acc in sorted(ors):
+        for n in ast.walk(lp):
+            if isinstance(n, ast.AugAssign) and isinstance(n.target, ast.Name) and n.target.id == acc:
+                rr.inst(f"{acc}: {norm(n, 40)}", True)
+            elif isinstance(n, ast.Assign) and any(isinstance(t, ast.Name) and t.id == acc for t in n.targets):
+                rr.inst(f"{acc}: {norm(n, 40)}", True)
+                rr.add(finding("ACCUM", fi, n, f"`{norm(n, 50)}` reassigns `{acc}` inside the loop over the parts of the description, where every other update ORs into it: the settings collected from the parts before this one are dropped ('bold,underline,#123456' comes out plain) and the duplicate-setting test no longer sees them", construct=f"{acc} reassigned inside the part loop"))
     return rr
 
 
@@ -443,6 +503,7 @@ def run(ctx: Ctx):
         rule_hash_eq(ctx),
         rule_tables(ctx),
         rule_depth_markers(ctx),
+        rule_flags_accumulate(ctx),
         truthy.run_truthy(
             p, "C18.5", [f"{COMMON}.AttrSpec.__set_foreground", f"{COMMON}.AttrSpec.__set_background"], r"^_parse_color_|^index$|^_true_to_256$", floor=2,
             description="colour numbers (0 is a colour) returned by the parsers are distinguished from None by identity, never by truthiness",
@@ -465,6 +526,9 @@ from ..mutants import Mut  # noqa: E402
 
 _C = "urwid/display/common.py"
 MUTANTS = [
+    Mut("fold-88-low-digits", "urwid/display/common.py", "_parse_color_88", "            desc = desc[0:2] + desc[3] + desc[5]", "            desc = desc[::2]", "TAINT|display.common._parse_color_88|seven-character fold keeps other positions than 0, 1, 3, 5"),
+    Mut("twin-fold-88-stepped-slice", "urwid/display/common.py", "_parse_color_88", "            desc = desc[0:2] + desc[3] + desc[5]", "            desc = desc[0] + desc[1::2]", twin=True),
+    Mut("true-colour-foreground-resets-flags", "urwid/display/common.py", "urwid.display.common.AttrSpec.__set_foreground", "                flags |= _FG_TRUE_COLOR\n", "                flags = _FG_TRUE_COLOR\n", "ACCUM|display.common.AttrSpec.__set_foreground|flags reassigned inside the part loop"),
     Mut("true-colour-marker-kept", "urwid/display/common.py", "AttrSpec.__init__", "            self.__value &= ~_HIGH_TRUE_COLOR\n", "            pass\n", "SIB|display.common.AttrSpec.__init__|depth marker _HIGH_TRUE_COLOR neither reported nor cleared"),
     Mut("color-88-folds-before-validating", "urwid/display/common.py", "_parse_color_88", "            _int_digits(desc[1:], 16)\n            desc = desc[0:2] + desc[3] + desc[5]", "            desc = desc[0:2] + desc[3] + desc[5]", "TAINT|display.common._parse_color_88|seven-character fold before validation"),
     Mut("lookup-midpoint-bankers-rounding", "urwid/display/common.py", "_value_lookup_table", "(values[i] + values[i + 1] + 1) // 2", "round((values[i] + values[i + 1]) / 2)", "TAB|display.common._value_lookup_table"),
